@@ -23,7 +23,7 @@ pub fn prop() -> Prop {
         assumptions: vec![
             "the reference layout reader is written from the rustdoc of ImageRaw and of the two DataOrder types",
         ],
-        subs: vec![Sub::tape("images", 28, 300_000, 4_500_000, images)],
+        subs: vec![Sub::tape("images", 28, 300_000, 15_000_000, images)],
     }
 }
 
